@@ -17,8 +17,11 @@ def main():
     k = int(([a.split('=')[1] for a in args if a.startswith('--workers=')] or ['6'])[0])
     md = ([a.split('=', 1)[1] for a in args if a.startswith('--md=')] or [None])[0]
     sel = [a for a in args if not a.startswith('--')]
+    hand = '--mutants' in args  # the hand-written mutants/*.diff instead of the seeded changes
     ids = []
-    for d in sorted(glob.glob('/verif/seeded/*/')):
+    if hand:
+        ids = [os.path.basename(f)[:-5] for f in sorted(glob.glob('/verif/mutants/*.diff')) if not sel or any(os.path.basename(f).startswith(x) for x in sel)]
+    for d in ([] if hand else sorted(glob.glob('/verif/seeded/*/'))):
         name = os.path.basename(d.rstrip('/'))
         meta = json.load(open(d + 'meta.json'))
         if meta.get('outside_property'):
@@ -39,7 +42,7 @@ def main():
         sh(f'rsync -a --delete --exclude .git --exclude harness/target --exclude harness/fuzz/target --exclude harness/fuzz/corpus --exclude harness/fuzz/artifacts /verif/ {base}/verif/')
         sh(f"sed -i 's#path = \"/repo\"#path = \"{base}/repo\"#' {base}/verif/harness/Cargo.toml {base}/verif/harness/fuzz/Cargo.toml")
         env = dict(os.environ, NVERIF_V=base + '/verif', NVERIF_REPO=base + '/repo', NVERIF_MUT_OUT=base + '/out')
-        procs.append((w, mine, subprocess.Popen(['python3', base + '/verif/tools/run_mutants.py', '--seeded', '--exact', f'--json={base}/rows.json'] + mine,
+        procs.append((w, mine, subprocess.Popen(['python3', base + '/verif/tools/run_mutants.py'] + ([] if hand else ['--seeded']) + ['--exact', f'--json={base}/rows.json'] + mine,
                                                 env=env, stdout=open(base + '/log', 'w'), stderr=subprocess.STDOUT)))
     rows = []
     for w, mine, p in procs:
@@ -48,12 +51,14 @@ def main():
             rows += [tuple(r) for r in json.load(open(f'{ROOT}/{w}/rows.json'))]
         except Exception as e:
             print('worker', w, 'failed:', e, open(f'{ROOT}/{w}/log').read()[-500:])
-    rows.sort(key=lambda r: (r[1], int(r[0].split('_')[-1])))
+    rows.sort(key=lambda r: (r[1], r[0]) if hand else (r[1], int(r[0].split('_')[-1])))
     for n, p, r in rows:
         print(n, r.get('status'), r.get('by', ''), r.get('seed', ''), r.get('seconds', ''), (r.get('detail') or '')[:140])
     import run_mutants
     outside = {os.path.basename(d.rstrip('/')): json.load(open(d + 'meta.json'))['property'] for d in glob.glob('/verif/seeded/*/') if json.load(open(d + 'meta.json')).get('outside_property')}
-    if md:
+    if hand:
+        run_mutants.write_results(md or '/verif/mutants/RESULTS.md', False, [] if md else ids, rows, {})
+    elif md:
         run_mutants.write_results(md, True, [], rows, {})
     else:
         run_mutants.write_results('/verif/seeded/RESULTS.md', True, ids, rows, outside)
